@@ -365,6 +365,7 @@ structure SxInv (s : McSx Rat) : Prop where
   qsym : QSym s.b
   labelsOK : LabelsOK s.b
   C_nonneg : 0 ≤ s.b.C
+  P_pos : 0 < s.b.P
   simplex : SimplexInv s
 
 theorem SxInv.of_parts {s s' : McSx Rat} (h : SxInv s) (hs : SameStatic s.b s'.b) (ht : TablesInv s'.b)
@@ -375,6 +376,7 @@ theorem SxInv.of_parts {s s' : McSx Rat} (h : SxInv s) (hs : SameStatic s.b s'.b
   qsym := h.qsym.transfer hs
   labelsOK := h.labelsOK.transfer hs
   C_nonneg := by rw [hs.2.2.2.1]; exact h.C_nonneg
+  P_pos := by rw [hs.2.1]; exact h.P_pos
   simplex := hx
 
 /-- `SimplexInv` reads `alpha`, the `var`/`index` fields of the example records, `P`, `n`, `C` and `varsum` -/
@@ -399,7 +401,7 @@ theorem sxInv_init (c P n : Nat) (C : Rat) (hC : 0 ≤ C) (M : Nat → Row Rat) 
     (hK : ∀ i j, K i j = K j i) (hl : ∀ i < n, labels i < c) :
     SxInv (McSx.init c P n C M K labels linMat) := by
   have hf := fullInv_init c P n C hC M K labels linMat hP hM hMsym hK hl
-  refine ⟨hf.tables, hf.grad, hf.mwf, hf.qsym, hf.labelsOK, hf.C_nonneg, ?_, ?_⟩
+  refine ⟨hf.tables, hf.grad, hf.mwf, hf.qsym, hf.labelsOK, hf.C_nonneg, hP, ?_, ?_⟩
   · intro v _
     show 0 ≤ (0.0 : Rat)
     norm_num
@@ -719,13 +721,15 @@ theorem sx_deact_slot (s : McSx Rat) (h : SxInv s) (e p : Nat) (he : e < s.b.n) 
   exact ⟨hb, by rw [hb, hact]⟩
 
 /-- case 2 of `shrink`: all active variables of the slot are deactivated, last first -/
-theorem sxInv_shrinkCase2 (s : McSx Rat) (h : SxInv s) (e : Nat) (he : e < s.b.n) : SxInv (s.shrinkCase2 e) := by
+theorem sxInv_shrinkCase2 (s : McSx Rat) (h : SxInv s) (e : Nat) (he : e < s.b.n) :
+    SxInv (s.shrinkCase2 e) ∧ (s.shrinkCase2 e).b.n = s.b.n := by
   unfold McSx.shrinkCase2
   dsimp only
   generalize hpc : (s.b.ex e).active = pc
   suffices H : ∀ k, k ≤ pc →
       let t := (List.range k).foldl (fun (s : McSx Rat) k => s.deactivateVariable ((s.b.ex e).avar (pc - 1 - k))) s
-      SxInv t ∧ t.b.n = s.b.n ∧ (k < pc → pc ≤ (t.b.ex e).active + k) from (H pc (le_refl _)).1
+      SxInv t ∧ t.b.n = s.b.n ∧ (k < pc → pc ≤ (t.b.ex e).active + k) from
+    ⟨(H pc (le_refl _)).1, (H pc (le_refl _)).2.1⟩
   intro k
   induction k with
   | zero => intro _; exact ⟨h, rfl, fun _ => by simp [hpc]⟩
@@ -807,7 +811,7 @@ theorem deactVar_grad_slot (b : McBox Rat) (ht : TablesInv b) (v : Nat) (hv : v 
 
 /-- case 1 of `shrink` -/
 theorem sxInv_shrinkCase1 (s : McSx Rat) (h : SxInv s) (e : Nat) (he : e < s.b.n) (down : Rat) :
-    SxInv (s.shrinkCase1 e (s.simplexMVP e).1 down) := by
+    SxInv (s.shrinkCase1 e (s.simplexMVP e).1 down) ∧ (s.shrinkCase1 e (s.simplexMVP e).1 down).b.n = s.b.n := by
   unfold McSx.shrinkCase1
   dsimp only
   generalize hup : (s.simplexMVP e).1 = up
@@ -828,7 +832,8 @@ theorem sxInv_shrinkCase1 (s : McSx Rat) (h : SxInv s) (e : Nat) (he : e < s.b.n
         else (s, false)) (s, false)
       SxInv t.1 ∧ t.2 = false ∧ t.1.b.n = s.b.n ∧
         (k < pc → pc ≤ (t.1.b.ex e).active + k ∧
-          ∀ b < (t.1.b.ex e).active, t.1.b.grad ((t.1.b.ex e).avar b) ≤ up) from (H pc (le_refl _)).1
+          ∀ b < (t.1.b.ex e).active, t.1.b.grad ((t.1.b.ex e).avar b) ≤ up) from
+    ⟨(H pc (le_refl _)).1, (H pc (le_refl _)).2.2.1⟩
   intro k
   induction k with
   | zero => intro _; exact ⟨h, rfl, rfl, fun _ => ⟨by simp [hpc], hpc ▸ hJ0⟩⟩
@@ -864,5 +869,138 @@ theorem sxInv_shrinkCase1 (s : McSx Rat) (h : SxInv s) (e : Nat) (he : e < s.b.n
       rw [z0] at this
       linarith
     · exact ⟨h1, rfl, hn1, fun hk1 => ⟨by omega, h2b⟩⟩
+
+
+/-- the example loop of `shrink` -/
+def shrinkExStep (E0 : Nat) (s : McSx Rat) (k : Nat) : McSx Rat :=
+  let e := E0 - 1 - k
+  let m := s.simplexMVP e
+  let up := m.1
+  let down := m.2.2.1
+  if down > (0.0 : Rat) ∧ s.vsum e == s.b.C ∧ up - down > (0.0 : Rat) then s.shrinkCase1 e up down
+  else if s.vsum e == (0.0 : Rat) ∧ up < (0.0 : Rat) then s.shrinkCase2 e
+  else s
+
+theorem sxInv_shrinkExStep (E0 : Nat) (s : McSx Rat) (h : SxInv s) (k : Nat) (hE : E0 ≤ s.b.n) (hk : k < E0) :
+    SxInv (shrinkExStep E0 s k) ∧ (shrinkExStep E0 s k).b.n = s.b.n := by
+  unfold shrinkExStep
+  dsimp only
+  split_ifs
+  · exact sxInv_shrinkCase1 s h _ (by omega) _
+  · exact sxInv_shrinkCase2 s h _ (by omega)
+  · exact ⟨h, rfl⟩
+
+/-- head of `shrink`: the optional `unshrink` -/
+def shrinkHeadX (s : McSx Rat) (eps : Rat) : McSx Rat :=
+  if (!s.b.unshrinked) = true then
+    if s.checkKKT < (10.0 : Rat) * eps then { s.unshrink with b := { s.unshrink.b with unshrinked := true } } else s
+  else s
+
+theorem sxInv_shrinkHeadX (s : McSx Rat) (h : SxInv s) (eps : Rat) : SxInv (shrinkHeadX s eps) := by
+  unfold shrinkHeadX
+  split_ifs
+  · exact sxInv_setFlag _ (sxInv_unshrink s h) true
+  · exact h
+  · exact h
+
+theorem shrinkX_eq (s : McSx Rat) (eps : Rat) :
+    (s.shrink eps).1 = if (!s.b.useShrinking) = true then s else
+      (List.range (shrinkHeadX s eps).b.activeEx).foldl (shrinkExStep (shrinkHeadX s eps).b.activeEx) (shrinkHeadX s eps) := by
+  unfold McSx.shrink shrinkHeadX
+  by_cases hu : (!s.b.useShrinking) = true
+  · rw [if_pos hu, if_pos hu]
+  · rw [if_neg hu, if_neg hu]
+    rfl
+
+theorem sxInv_shrink (s : McSx Rat) (h : SxInv s) (eps : Rat) : SxInv (s.shrink eps).1 := by
+  rw [shrinkX_eq]
+  split_ifs
+  · exact h
+  · have h0 := sxInv_shrinkHeadX s h eps
+    generalize shrinkHeadX s eps = t at h0
+    have hE : t.b.activeEx ≤ t.b.n := h0.tables.aE_le
+    generalize t.b.activeEx = E0 at hE
+    suffices H : ∀ k, k ≤ E0 → SxInv ((List.range k).foldl (shrinkExStep E0) t) ∧
+        ((List.range k).foldl (shrinkExStep E0) t).b.n = t.b.n from (H E0 (le_refl _)).1
+    intro k
+    induction k with
+    | zero => intro _; exact ⟨h0, rfl⟩
+    | succ k ih =>
+      intro hk
+      obtain ⟨h1, hn1⟩ := ih (by omega)
+      rw [List.range_succ, List.foldl_append, List.foldl_cons, List.foldl_nil]
+      obtain ⟨r1, r2⟩ := sxInv_shrinkExStep E0 _ h1 k (by rw [hn1]; exact hE) (by omega)
+      exact ⟨r1, by rw [r2, hn1]⟩
+
+/-! ### `QpSolver<QpMcSimplexDecomp>::solve` -/
+
+theorem sxInv_solveTailX (eps : Rat) (st : SolveStX Rat) (i j : Nat) (h : SxInv st.s) :
+    SxInv (solveTailX eps st i j).s ∧ (solveTailX eps st i j).stop ≠ .accuracy := by
+  unfold solveTailX
+  dsimp only
+  by_cases hv : i < st.s.b.activeVar ∧ j < st.s.b.activeVar
+  · rw [if_pos hv]
+    have h1 : SxInv (st.s.updateSMO i j) := sxInv_updateSMO st.s h i j hv.1 hv.2
+    refine ⟨?_, by simp⟩
+    by_cases h0 : st.shrinkCounter = 0
+    · rw [if_pos h0]
+      exact sxInv_shrink _ h1 eps
+    · rw [if_neg h0]
+      exact h1
+  · rw [if_neg hv]
+    exact ⟨h, by simp⟩
+
+/-- what is true when the loop body ends the loop with `QpAccuracyReached` -/
+def StoppedOKX (eps : Rat) (st : SolveStX Rat) : Prop :=
+  st.stop = .accuracy → st.s.b.activeVar = st.s.b.P * st.s.b.n ∧ st.s.b.activeEx = st.s.b.n ∧ st.s.checkKKT < eps
+
+theorem solveBodyX_spec (eps : Rat) (st : SolveStX Rat) (h : SxInv st.s) :
+    SxInv (solveBodyX eps st).s ∧ StoppedOKX eps (solveBodyX eps st) := by
+  unfold solveBodyX
+  dsimp only
+  have hu : SxInv st.s.unshrink := sxInv_unshrink st.s h
+  split_ifs with h1 h2
+  · refine ⟨hu, fun _ => ⟨?_, ?_, h2⟩⟩
+    · show st.s.b.unshrink.activeVar = st.s.b.unshrink.P * st.s.b.unshrink.n
+      rw [McBox.unshrink_activeVar, McBox.unshrink_P, McBox.unshrink_n]
+    · show st.s.b.unshrink.activeEx = st.s.b.unshrink.n
+      have := h.tables.aV_le
+      unfold McBox.unshrink
+      dsimp only
+      split_ifs with hc
+      · -- already all variables active: then all examples are active
+        by_contra hne
+        have hlt : st.s.b.activeEx < st.s.b.n := lt_of_le_of_ne h.tables.aE_le hne
+        have h0 := h.tables.inactive_ex st.s.b.activeEx (le_refl _) hlt
+        have hP : 0 < st.s.b.P := h.P_pos
+        have hav := h.tables.avar_lt _ hlt 0 hP
+        have hiff := (h.tables.active_iff _ hlt 0 hP).mpr (by simp only [McBox.numVars] at hc; omega)
+        omega
+      · rfl
+  · have hs : SxInv (st.s.unshrink.shrink eps).1 := sxInv_shrink _ hu eps
+    have := sxInv_solveTailX eps { st with s := (st.s.unshrink.shrink eps).1 }
+      (st.s.unshrink.shrink eps).1.selectWorkingSet.1 (st.s.unshrink.shrink eps).1.selectWorkingSet.2.1 hs
+    exact ⟨this.1, fun hc => absurd hc this.2⟩
+  · have := sxInv_solveTailX eps st st.s.selectWorkingSet.1 st.s.selectWorkingSet.2.1 h
+    exact ⟨this.1, fun hc => absurd hc this.2⟩
+
+theorem solveLoopX_spec (eps : Rat) : ∀ (fuel : Nat) (st : SolveStX Rat), SxInv st.s →
+    SxInv (solveLoopX eps fuel st).s ∧ StoppedOKX eps (solveLoopX eps fuel st) := by
+  intro fuel
+  induction fuel with
+  | zero => intro st h; exact ⟨h, fun hc => by simp [solveLoopX] at hc⟩
+  | succ fuel ih =>
+    intro st h
+    have hb := solveBodyX_spec eps st h
+    unfold solveLoopX
+    dsimp only
+    split_ifs with hr
+    · exact ih _ hb.1
+    · exact hb
+
+/-- **every state reached by `QpSolver<QpMcSimplexDecomp>::solve`** satisfies the tables, gradient and simplex
+invariants — for every accuracy, iteration limit, shrinking on or off, from any state that satisfies them -/
+theorem sxInv_solveX (s : McSx Rat) (h : SxInv s) (eps : Rat) (maxIter : Nat) : SxInv (solveX s eps maxIter).s :=
+  (solveLoopX_spec eps maxIter _ h).1
 
 end SharkVerif.Mc
